@@ -7,7 +7,7 @@ from common import hx
 from props.c02 import boundary_values
 
 ID = "C06"
-LEAN_IMPORTS = ["PyTrie.Props.C06", "PyTrie.Props.C05Batch", "PyTrie.Props.RawLevel", "PyTrie.Props.NonVacuity", "PyTrie.Props.NonVacuity4", "PyTrie.Props.FreeExec"]
+LEAN_IMPORTS = ["PyTrie.Props.C06", "PyTrie.Props.C05Batch", "PyTrie.Props.RawLevel", "PyTrie.Props.NonVacuity", "PyTrie.Props.NonVacuity4", "PyTrie.Props.FreeExec", "PyTrie.Props.HistoryBlocks", "PyTrie.Props.NonVacuity9"]
 THEOREMS = [
     "PyTrie.Props.C06.setE_tree",
     "PyTrie.Props.C06.deleteE_tree",
@@ -42,6 +42,10 @@ THEOREMS = [
     "PyTrie.Props.Free.run_pruning_exact",
     "PyTrie.Props.Free.run_get",
     "PyTrie.Props.Free.history_lockstep",
+    "PyTrie.Props.Free.history_blocks_pruning_exact",
+    "PyTrie.Props.Free.history_blocks_world",
+    "PyTrie.Props.NonVacuity9.pruning_witness",
+    "PyTrie.Props.NonVacuity9.world_witness_p",
 ]
 RULE = ("pruning tries started on an empty database and modified only through their own API: histories of "
         "set/delete/set-to-empty/no-op updates and squash_changes blocks (committed and aborted) over prefix-sharing "
